@@ -173,10 +173,11 @@ async fn read_headers(
         if buf.is_empty() {
             return Ok(());
         };
+        // field-name ":" OWS field-value OWS: the whitespace around the value is optional
         let a = buf
-            .split_once(": ")
+            .split_once(':')
             .ok_or_else(|| err_msg(format!("bad response: {:?}", buf)))?;
-        headers.push((a.0.to_owned(), a.1.to_owned()))
+        headers.push((a.0.to_owned(), a.1.trim().to_owned()))
     }
 }
 
